@@ -10,6 +10,8 @@ echo "|---|---|---|---|" >> $out.tmp
 for d in seeded/*/; do
   name=$(basename $d); [ -f $d/meta.json ] || continue
   prop=$(python3 -c "import json;print(json.load(open('$d/meta.json'))['property'])")
+  obs=$(python3 -c "import json;print(json.load(open('$d/meta.json')).get('obsolete','')[:160])")
+  if [ -n "$obs" ]; then echo "| $name | $prop | OBSOLETE (no longer breaks the property on HEAD) | $obs |" >> $out.tmp; echo "OBSOLETE $name"; continue; fi
   if [ ! -f checks/$prop.json ]; then echo "| $name | $prop | no check yet | |" >> $out.tmp; continue; fi
   r=$(tools/run_seeded.sh $name $tier 2>&1)
   line=$(echo "$r" | grep -E "DETECTED|MISSED|PATCH" | head -1)
